@@ -2063,7 +2063,7 @@ impl Compiler {
         wildcard_import: bool,
         ctx: CompileNodeContext,
     ) -> Result<()> {
-        use Op::{Copy, Import, ImportAll};
+        use Op::{Copy, Import, ImportAll, Jump, JumpIfNull};
 
         let import_op = if wildcard_import { ImportAll } else { Import };
 
@@ -2074,6 +2074,16 @@ impl Compiler {
                     if local_register != result_register {
                         self.push_op(Copy, &[result_register, local_register]);
                     }
+                    // The local is still null if the expression that assigns it hasn't been
+                    // executed, e.g. when the item is imported in both branches of an `if`.
+                    // In that case the item gets imported by name.
+                    self.push_op(JumpIfNull, &[result_register]);
+                    let local_is_null_placeholder = self.push_offset_placeholder();
+                    self.push_op(Jump, &[]);
+                    let local_has_value_placeholder = self.push_offset_placeholder();
+                    self.update_offset_placeholder(local_is_null_placeholder)?;
+                    self.compile_load_string_constant(result_register, *id);
+                    self.update_offset_placeholder(local_has_value_placeholder)?;
                     // If a previous import of the item failed, then the local still contains the
                     // item's name rather than the imported value, in which case the import needs
                     // to be attempted again.
